@@ -107,7 +107,8 @@ where
     /// then None is returned.
     pub fn split(&self, offset: usize) -> Option<(Self, Self)> {
         let split_point = self.bounds.start.to_usize() + offset;
-        if self.data.is_char_boundary(split_point) {
+        // The data is shared, so the split point also needs to be checked against the slice's end
+        if split_point <= self.bounds.end.to_usize() && self.data.is_char_boundary(split_point) {
             if let Ok(split_point_t) = T::try_from(split_point) {
                 Some((
                     Self {
